@@ -123,6 +123,7 @@ impl<T: Unpin> Future for Gate<T> {
         }
     }
 }
+pub fn bump_mut(c: &mut u8) -> &mut u8 { *c = c.wrapping_add(1); c }
 pub fn gate<T: Unpin>(pending: u8, code: u16, value: T) -> Gate<T> { Gate { pending, value: Some(value), code } }
 
 /// Polls `f` up to `max` times; returns the output and the number of polls used.
